@@ -579,6 +579,10 @@ def corr_aes(ctx, exe, quick):
     dis = correspond(ctx, "AES_256_ECB vs Lean FIPS-197 specification", lines, [exe])
     if dis:
         classify(ctx, "aes", dis, oracle)
+    dis = correspond(ctx, "AES_256_ECB vs hand model of key schedule + aes_ecb + aes_ecb4x over the generated primitives (aes256Ecb)",
+                     lines, [exe], model_lines=[l.replace("aes.enc256", "aesct.enc256") for l in lines])
+    if dis:
+        classify(ctx, "aesct256", dis, oracle)
 
 
 def corr_aesct(ctx, b, quick):
